@@ -42,13 +42,13 @@ TECHNIQUE = "history monitor: recorded read/construct histories on shared argume
 DESIGN_REF = "DESIGN.md 4 C18; 2.4(d)(e)"
 REQUIRED_REACH = {
     "quick": ["history_read", "reread", "construct_shared", "envelope_equivalence",
-              "class:mutated_transforms", "class:mutated_response", "class:mode=cube",
+              "class:mutated_response", "class:set_and_single_cubes", "class:mode=cube",
               "class:mode=cubeset_tabbook", "class:mode=cubeset_ca0",
               "class:mode=cubeset_numsum", "class:mode=cubeset_filtercols", "class:3d",
               "class:means_pairwise_defined",
               "class:corpus"],
     "thorough": ["history_read", "reread", "construct_shared", "envelope_equivalence",
-                 "thread_read", "class:mutated_transforms", "class:mutated_response",
+                 "thread_read", "class:mutated_response", "class:set_and_single_cubes",
                  "class:means_pairwise_defined", "class:corpus"],
 }
 BATCH = 12
@@ -217,10 +217,20 @@ def _responses(case):
             for d in case["specs"]]
 
 
-def _build(case, responses, trs, form="dict"):
-    """The object under test for shared or fresh argument objects."""
+def _build(case, responses, trs, form="dict", which=None):
+    """The object under test for shared or fresh argument objects.
+
+    `which` = j builds the stand-alone Cube of response j of a cube-set case from the very
+    same argument objects (a multi-table and its single tables are analysed side by side)."""
     from cr.cube.cube import Cube, CubeSet
 
+    if which is not None:
+        resp = responses[which]
+        if form == "json":
+            resp = json.dumps(resp)
+        elif form == "envelope":
+            resp = {"element": "shoji:view", "value": resp}
+        return Cube(resp, transforms=trs[which], population=case["population"], mask_size=3)
     if case["mode"] in ("cube", "fixture"):
         resp = responses[0]
         if form == "json":
@@ -235,8 +245,8 @@ def _build(case, responses, trs, form="dict"):
     return CubeSet(responses, trs, case["population"], 3)
 
 
-def _partitions(case, obj):
-    if case["mode"] in ("cube", "fixture"):
+def _partitions(case, obj, which=None):
+    if which is not None or case["mode"] in ("cube", "fixture"):
         return list(obj.partitions)
     return [p for pset in obj.partition_sets for p in pset]
 
@@ -262,8 +272,11 @@ def _outcome(o):
     return ("raise", o.exc_name)
 
 
-def _entries(case, parts):
-    """All (where, attr, args) read entries of the object."""
+def _entries(case, parts, which=None):
+    """All (where, attr, args[, which]) read entries of the object."""
+    if which is not None:
+        sub = dict(case, mode="cube")
+        return [e + (which,) for e in _entries(sub, parts)]
     from cr.cube.enums import ORDER_FORMAT
 
     out = []
@@ -293,7 +306,7 @@ def _entries(case, parts):
 def _read_entry(case, obj, parts, entry):
     from cr.cube.enums import ORDER_FORMAT
 
-    j, name, args = entry
+    j, name, args = entry[:3]
     target = obj if j < 0 else parts[j]
     if name in ("row_order", "column_order") and args:
         return read(target, name, ORDER_FORMAT(args[0]))
@@ -317,15 +330,29 @@ def check_case(case):
         res.check("history_read", False, "exception/partitions", {"exc": repr(e)})
         return res
     entries = _entries(case, probe_parts)
+    if case["mode"].startswith("cubeset"):
+        # the single tables of the multi-table, analysed on their own from the same argument
+        # objects (and the same JSON text): entries carry the index of their response
+        res.classes.append("set_and_single_cubes")
+        for j_ in range(len(base_resp)):
+            try:
+                single = _build(case, copy.deepcopy(base_resp), copy.deepcopy(base_trs),
+                                which=j_)
+                entries += _entries(case, _partitions(case, single, j_), which=j_)
+            except Exception:
+                res.skipped["single_cube_not_constructible"] += 1
     r = random.Random(case["hseed"])
     # a history touches a sample of the entries (each maybe several times)
     n_steps = r.randint(40, 160)
     chosen = [r.choice(entries) for _ in range(n_steps)]
     pristine = {}
+    def kind(e):
+        return e[3] if len(e) == 4 else None
+
     for e in set(chosen):
-        fresh = _build(case, copy.deepcopy(base_resp), copy.deepcopy(base_trs))
+        fresh = _build(case, copy.deepcopy(base_resp), copy.deepcopy(base_trs), which=kind(e))
         try:
-            fparts = _partitions(case, fresh) if e[0] >= 0 else None
+            fparts = _partitions(case, fresh, kind(e)) if e[0] >= 0 else None
             pristine[e] = _outcome(_read_entry(case, fresh, fparts, e))
         except Exception as ex:
             pristine[e] = ("raise", type(ex).__name__)
@@ -335,9 +362,9 @@ def check_case(case):
     before = json.dumps([shared_resp, shared_trs], sort_keys=True, default=str)
     pool = []
 
-    def new_obj(form="dict"):
-        ob = _build(case, shared_resp, shared_trs, form)
-        pool.append([ob, None])
+    def new_obj(form="dict", which=None):
+        ob = _build(case, shared_resp, shared_trs, form, which)
+        pool.append([ob, None, which])
         return ob
 
     new_obj()
@@ -346,16 +373,18 @@ def check_case(case):
     seen_reads = set()
     for step, e in enumerate(chosen):
         u = r.random()
-        if u < 0.08:
+        same_kind = [k_ for k_, x in enumerate(pool) if x[2] == kind(e)]
+        if u < 0.08 or not same_kind:
             form = r.choice(["dict", "dict", "json", "envelope"])
-            new_obj(form)
-            history.append(["construct", form])
+            new_obj(form, kind(e))
+            history.append(["construct", form, kind(e)])
             res.monitors["construct_shared"] += 1
-        k = r.randrange(len(pool))
-        ob, parts = pool[k]
+            same_kind.append(len(pool) - 1)
+        k = r.choice(same_kind)
+        ob, parts = pool[k][0], pool[k][1]
         if parts is None and e[0] >= 0:
             try:
-                parts = _partitions(case, ob)
+                parts = _partitions(case, ob, kind(e))
             except Exception as ex:
                 res.check("history_read", pristine[e][0] == "raise", "history/partitions_raise",
                           {"exc": repr(ex), "history": history[-12:]})
@@ -366,7 +395,7 @@ def check_case(case):
                       {"got": len(parts), "wanted": e[0], "history": history[-12:]})
             continue
         got = _outcome(_read_entry(case, ob, parts, e))
-        history.append(["read", k, e[0], e[1], list(e[2])])
+        history.append(["read", k, e[0], e[1], list(e[2]), kind(e)])
         if e[1].startswith("pairwise_") and "means" in e[1] and pristine[e][0] == "ok":
             res.classes.append("means_pairwise_defined")
         n_reads += 1
@@ -390,7 +419,8 @@ def check_case(case):
         mutated = True
     # ---- JSON text / dict / envelope give the same table ------------------------------------------
     if True:  # every mode: cubes and cube sets alike accept the three input forms
-        sample = r.sample(sorted(set(chosen), key=repr), min(12, len(set(chosen))))
+        main = sorted((e for e in set(chosen) if kind(e) is None), key=repr)
+        sample = r.sample(main, min(12, len(main)))
         for form in ("json", "envelope"):
             ob = _build(case, copy.deepcopy(base_resp), copy.deepcopy(base_trs), form)
             try:
@@ -405,7 +435,8 @@ def check_case(case):
                 res.check("envelope_equivalence", ok, "envelope/%s/%s" % (form, e[1]),
                           None if ok else {"got": _short(got), "pristine": _short(pristine[e])})
     if case.get("threads"):
-        _thread_stress(res, case, base_resp, base_trs, entries, pristine, r)
+        _thread_stress(res, case, base_resp, base_trs, entries,
+                       {e: v for e, v in pristine.items() if kind(e) is None}, r)
     res.descriptor = {"mode": case["mode"], "template": case.get("template"),
                       "steps": n_steps, "reads": n_reads, "objects_sharing_arguments": len(pool),
                       "transforms": base_trs, "history_head": history[:8]}
